@@ -149,12 +149,12 @@ def run(tier, seed):
             for t in itertools.product(REDUCED, repeat=n):
                 cases.append(("exhaustive<=%d" % maxlen, render(t, "g")))
         r1 = rng.fork("longer")
-        for i in range(20000 if quick else 600000):
+        for i in range(10000 if quick else 600000):
             n = r1.range(maxlen + 1, 8)
             cases.append(("sampled %d..8 tokens (reduced set)" % (maxlen + 1), render([r1.choice(REDUCED) for _ in range(n)], "g")))
         # 2. soups over the full vocabulary, all trivia styles (these re-derive finding C23-1)
         r2 = rng.fork("soup")
-        for i in range(12000 if quick else 300000):
+        for i in range(9000 if quick else 300000):
             n = r2.range(1, 40 if i % 10 else 400)
             toks = [r2.choice(VOCAB) for _ in range(n)]
             cases.append(("token soup", render(toks, "gwc"[i % 3])))
@@ -188,7 +188,9 @@ def run(tier, seed):
             for m in ("S", "R"):
                 lines.append("%s%s %s" % (m, full, hx))
                 meta.append((seen[t], t, m, bool(full)))
-        impl = C.run_lines([har], lines, case_timeout=20)
+        # address-space limit: a runaway parser must not exhaust the machine
+        hcmd = ["bash", "-c", "ulimit -v 4000000; exec %s" % har]
+        impl = C.run_lines(hcmd, lines, case_timeout=20)
         # ---- oracle ---------------------------------------------------------------
         streams = {}
         worst = (0.0, None)
@@ -208,7 +210,15 @@ def run(tier, seed):
                        "input": t if nb <= 2000 else t[:2000] + "...", "input_hex": t.encode().hex() if nb <= 70000 else None,
                        "implementation": (r or "")[:400]}
             if r is None or r.startswith("!"):
-                v.failing("hang-or-abort" if r != "!TIMEOUT" else "hang", payload)
+                v.failing("hang" if r in ("!TIMEOUT", "!DIED:99") else "abort", payload)
+                continue
+            if r.startswith("PANIC:VERIF-NO-PROGRESS"):
+                # hook parser::verif::no_progress: an error-recovery loop that records errors forever without
+                # consuming a token (the real parser would hang and exhaust memory); class = the looping construct
+                errkinds["hang(no-progress loop)"] = errkinds.get("hang(no-progress loop)", 0) + 1
+                mm = re.search(r"expected \[([^\]]*)\]", r)
+                what = mm.group(1) if mm else "?"
+                v.failing("no-progress-loop:" + what, payload)
                 continue
             if r.startswith("PANIC"):
                 errkinds["panic"] += 1
@@ -246,11 +256,15 @@ def run(tier, seed):
         # before `=` is removed
         if glue_checks:
             gl = ["%s %s" % (meta[k][2], g.encode().hex()) for (k, g, _p) in glue_checks]
-            gi = C.run_lines([har], gl, case_timeout=20)
+            gi = C.run_lines(hcmd, gl, case_timeout=20)
             for (k, g, payload), r in zip(glue_checks, gi):
                 ok = r is not None and r.startswith("ok 1 ") and r.split(" ")[3] == "0"
+                mm = re.search(r"VERIF-NO-PROGRESS.*expected \[([^\]]*)\]", r or "")
                 if ok:
                     v.failing("raw-double-bump-over-trivia", dict(payload, glued_input=g[:2000], glued_result=r[:200]))
+                elif mm:
+                    # both defects in one input: without the trivia the parser runs into a no-progress loop
+                    v.failing("no-progress-loop:" + mm.group(1), dict(payload, glued_input=g[:2000], glued_result=r[:200]))
                 else:
                     v.failing("panic", dict(payload, glued_input=g[:2000], glued_result=(r or "")[:200]))
         # ---- correspondence: Sink model on the real events -----------------------------
